@@ -253,6 +253,7 @@ pub enum Inner {
     Exec(Executor<u64>),
     Stream(StreamSource<ScriptStream>),
     Comp(Vec<Child>),
+    Raw(FdX),
     Gone,
 }
 
@@ -317,6 +318,7 @@ impl<const L: bool> Zoo<L> {
                 }
                 Ok(())
             }
+            Inner::Raw(fd) => unsafe { poll.register(&*fd, calloop::Interest::READ, calloop::Mode::Level, f.token()) },
             Inner::Gone => Ok(()),
         }
     }
@@ -337,6 +339,7 @@ impl<const L: bool> Zoo<L> {
                 }
                 Ok(())
             }
+            Inner::Raw(fd) => poll.reregister(&*fd, calloop::Interest::READ, calloop::Mode::Level, f.token()),
             Inner::Gone => Ok(()),
         }
     }
@@ -357,6 +360,7 @@ impl<const L: bool> Zoo<L> {
                 }
                 Ok(())
             }
+            Inner::Raw(fd) => poll.unregister(&*fd),
             Inner::Gone => Ok(()),
         }
     }
@@ -486,6 +490,11 @@ impl<const L: bool> EventSource for Zoo<L> {
                         None => Ok(action),
                     }
                 }
+                Inner::Raw(_) => {
+                    // every event the loop hands over reaches the callback
+                    deliver(Ev::Fd { child: 0, readable: readiness.readable, writable: readiness.writable });
+                    Ok(PostAction::Continue)
+                }
                 Inner::Gone => Ok(PostAction::Continue),
             }
         };
@@ -521,8 +530,11 @@ impl<const L: bool> EventSource for Zoo<L> {
             self.synth_token = synth;
         }
         if fault == Some(false) && res.is_ok() {
-            // a source that fails late undoes what it did, then reports the failure
-            let _ = self.inner_unregister(poll);
+            // a source that fails late undoes what it did, then reports the failure (unless it is sloppy)
+            let sloppy = w(|w| w.srcs[uid].spec.fault.map(|f| f.sloppy).unwrap_or(false));
+            if !sloppy {
+                let _ = self.inner_unregister(poll);
+            }
             self.synth_token = None;
             self.registered = false;
             res = Err(injected_calloop("register (after delegating)"));
